@@ -60,6 +60,12 @@ func LoadOracles() *Oracles {
 	}
 	b, err := os.ReadFile(filepath.Join(Root(), "oracles", "oracles.json"))
 	if err != nil {
+		// a child running under another uid reads the copy its parent made for it
+		if alt := os.Getenv("VERIF_ORACLES"); alt != "" {
+			b, err = os.ReadFile(alt)
+		}
+	}
+	if err != nil {
 		panic(err)
 	}
 	o := &Oracles{}
